@@ -35,10 +35,23 @@ func (f *fakeUnser) Unserialize(io.Reader, *native.UnserializeOptions, interface
 
 type fakeSer struct{ id int }
 
+type fakeNative struct{ by int }
+
 func (f *fakeSer) Serialize(*sbom.Document, *native.SerializeOptions, interface{}) (interface{}, error) {
-	return nil, nil
+	runtime.Gosched() // a legitimate preemption point between the two halves of a write
+	return &fakeNative{by: f.id}, nil
 }
-func (f *fakeSer) Render(interface{}, io.Writer, *native.RenderOptions, interface{}) error { return nil }
+
+// Render reports which driver serialized the native document it is handed.
+func (f *fakeSer) Render(doc interface{}, w io.Writer, _ *native.RenderOptions, _ interface{}) error {
+	n, ok := doc.(*fakeNative)
+	if !ok {
+		_, _ = fmt.Fprintf(w, "FOREIGN-NATIVE-DOCUMENT rendered by %d", f.id)
+		return nil
+	}
+	_, _ = fmt.Fprintf(w, "serialized-by-%d rendered-by-%d", n.by, f.id)
+	return nil
+}
 
 // ---- hook event log: global logical clock, fixed ring, lock-free
 
@@ -349,6 +362,7 @@ func init() {
 		Rule: "each round runs in a fresh process (library defaults) with the verif yield points installed (Gosched or a seeded sub-millisecond sleep at the five interleaving windows; the hook order is logged on a global logical clock): " +
 			"(a) every call of a fixed call set (sniff JSON / tag-value / garbage inputs; parse SPDX, CycloneDX and garbage; parse with reader options; write independent documents through writers built WithFormat(F) for 3 formats; one writer and one reader shared by all goroutines; default writer) is executed once sequentially, " +
 			"then G in {4,16,64} goroutines execute the calls concurrently while other goroutines churn both format registries on scratch keys; every concurrent result must equal the sequential one and a writer built WithFormat(F) must emit F; " +
+			"(a') 600 writes in a scratch format whose driver is being replaced concurrently by two distinguishable fake drivers: each write must be serialized and rendered by the same driver; " +
 			"(b) a registry history (2-4 clients, <=200 operations on 2-3 contended scratch keys, call/return stamps from one atomic clock) is recorded for the unserializer and the serializer registry and checked for linearizability against a per-key register with porcupine (timeout = inconclusive). " +
 			"The same rounds run in a -race build whose GORACE logs are parsed (reports with protobom frames are violations); a runtime abort kills the child and is attributed to the round. " +
 			"distinct = hash of the hook-event order of the round; non-trivial = round in which hook points were reached.",
@@ -480,6 +494,59 @@ func c17Round(c *core.C) {
 		}
 	}
 	c.CoverN("overlapping-calls", ov)
+
+	// (a') writes in a format whose driver is being replaced concurrently: every write must be done entirely by
+	// one of the drivers (what some sequential order of Register and Write gives), never serialized by one and rendered by the other
+	{
+		flip := formats.Format("application/x-verif-flip;version=1")
+		writer.RegisterSerializer(flip, &fakeSer{1})
+		var fwg sync.WaitGroup
+		var stopFlip int32
+		fwg.Add(1)
+		go func() {
+			defer fwg.Done()
+			for i := 0; atomic.LoadInt32(&stopFlip) == 0; i++ {
+				writer.RegisterSerializer(flip, &fakeSer{1 + i%2})
+				runtime.Gosched()
+			}
+		}()
+		var bad atomic.Value
+		var wwg sync.WaitGroup
+		writes := int64(0)
+		for g := 0; g < 4; g++ {
+			wwg.Add(1)
+			go func() {
+				defer wwg.Done()
+				defer func() {
+					if rec := recover(); rec != nil {
+						bad.Store(fmt.Sprintf("panic: %v", rec))
+					}
+				}()
+				w := writer.New(writer.WithFormat(flip))
+				for i := 0; i < 150; i++ {
+					var buf bytes.Buffer
+					err := w.WriteStream(sbom.NewDocument(), nopWC{&buf})
+					atomic.AddInt64(&writes, 1)
+					out := buf.String()
+					if err != nil {
+						bad.Store("error: " + err.Error())
+					} else if out != "serialized-by-1 rendered-by-1" && out != "serialized-by-2 rendered-by-2" {
+						bad.Store(out)
+					}
+				}
+			}()
+		}
+		wwg.Wait()
+		atomic.StoreInt32(&stopFlip, 1)
+		fwg.Wait()
+		writer.UnregisterSerializer(flip)
+		c.Evals(int(writes))
+		c.CoverN("writes-overlapping-driver-replacement", int(writes))
+		if b := bad.Load(); b != nil {
+			c.Violatef("write-not-atomic-wrt-driver-replacement", b, "a write that overlapped RegisterSerializer for its own format was not done by one driver: %v", b)
+			return
+		}
+	}
 
 	// (b) registry histories, linearizability
 	for _, which := range []string{"reader", "writer"} {
